@@ -14,6 +14,6 @@ CONSTANTS
   MaxCalls = 5
   MCToks = {"t1"}
 SPECIFICATION MCSpec
-INVARIANT SlotType TableInv ProbeBounded TablesDisjointFromData NoDamage ListfileExact AbsClean
+INVARIANT CursorBehindImage SlotType TableInv ProbeBounded TablesDisjointFromData NoDamage ListfileExact AbsClean
 PROPERTY AbsSpec OpRefines AtomicRefines
 CHECK_DEADLOCK FALSE
